@@ -318,3 +318,9 @@ Definition run (cs : list case) : list (N * N * N) :=
     (fun c => obs_eqb (model (c_in c)) (c_obs c))
     (fun c => negb (wf (c_in c)) || spec_ok (c_in c) (c_obs c))
     (fun _ => 0%N) cs.
+
+(* ---------- variations of an input (used to state non-interference) ---------- *)
+Definition with_fs (i : input) (fs : fsys) : input :=
+  mk_input (i_scheme i) (i_policy i) (i_repo i) fs (i_chain i) (i_token i).
+Definition with_policy (i : input) (p : list stmt) : input :=
+  mk_input (i_scheme i) p (i_repo i) (i_fs i) (i_chain i) (i_token i).
